@@ -2,6 +2,7 @@ package core
 
 import (
 	"fmt"
+	"strings"
 
 	"golang.org/x/tools/go/ssa"
 )
@@ -34,16 +35,97 @@ type Machine[S comparable] struct {
 	// terminating If (idx 0 = true edge) or prune the edge (ok=false). Optional.
 	Edge func(ctx *Ctx[S], s S, from *ssa.BasicBlock, idx int) (S, bool)
 
+	// Inline, when set, tells which statically resolved callees are analysed in place: the automaton runs
+	// through the callee's body from the current state and continues after the call with the states reached at
+	// the callee's returns (helper functions extracted from the function under analysis).
+	Inline func(callee *ssa.Function, site ssa.CallInstruction) bool
+
 	parent   map[Node[S]]Node[S]
 	Findings []Finding[S]
 	Visited  int
 	Exits    int
+	memo     map[inlineKey[S]][]S
+}
+
+type inlineKey[S comparable] struct {
+	site ssa.CallInstruction
+	s    S
+}
+
+// Frame is one level of in-place analysis of a callee.
+type Frame struct {
+	Site   ssa.CallInstruction
+	Callee *ssa.Function
+	Up     *Frame
 }
 
 // Ctx is handed to Step/Edge callbacks.
 type Ctx[S comparable] struct {
-	M    *Machine[S]
-	Node Node[S]
+	M     *Machine[S]
+	Node  Node[S]
+	Frame *Frame // non-nil while running inside an inlined callee
+}
+
+// Resolve maps a parameter of an inlined callee to the caller's argument (transitively up the frames).
+func (c *Ctx[S]) Resolve(v ssa.Value) ssa.Value { return ResolveIn(c.Frame, v) }
+
+// ResolveIn maps callee parameters to caller arguments along a frame chain.
+func ResolveIn(fr *Frame, v ssa.Value) ssa.Value {
+	for fr != nil {
+		p, ok := v.(*ssa.Parameter)
+		if !ok || p.Parent() != fr.Callee {
+			// a parameter of an outer frame's callee may still be resolvable further up
+			if ok {
+				found := false
+				for f2 := fr.Up; f2 != nil; f2 = f2.Up {
+					if p.Parent() == f2.Callee {
+						found = true
+					}
+				}
+				if !found {
+					return v
+				}
+				fr = fr.Up
+				continue
+			}
+			return v
+		}
+		args := fr.Site.Common().Args
+		idx := -1
+		for i, q := range fr.Callee.Params {
+			if q == p {
+				idx = i
+			}
+		}
+		if idx < 0 || idx >= len(args) {
+			return v
+		}
+		v = args[idx]
+		fr = fr.Up
+	}
+	return v
+}
+
+// CanonIn is the canonical name of an address in terms of the outermost frame: parameters of inlined callees
+// are replaced by the address expressions passed for them.
+func CanonIn(fr *Frame, addr ssa.Value) (string, ssa.Value) {
+	a := Addr(addr)
+	steps := a.Steps
+	root := a.Root
+	for i := 0; i < 6; i++ {
+		r2 := ResolveIn(fr, root)
+		if r2 == root {
+			break
+		}
+		a2 := Addr(r2)
+		steps = append(append([]string{}, a2.Steps...), steps...)
+		root = a2.Root
+	}
+	n := "?"
+	if root != nil {
+		n = root.Name()
+	}
+	return n + "." + strings.Join(steps, "."), root
 }
 
 func (c *Ctx[S]) Report(in ssa.Instruction, tag, format string, a ...interface{}) {
@@ -68,6 +150,10 @@ func (m *Machine[S]) Run() {
 		for _, in := range n.B.Instrs {
 			var next []S
 			for _, s := range states {
+				if out, done := m.tryInline(nil, s, in, 0); done {
+					next = append(next, out...)
+					continue
+				}
 				next = append(next, m.Step(ctx, s, in)...)
 			}
 			states = dedup(next)
@@ -105,6 +191,106 @@ func (m *Machine[S]) Run() {
 			}
 		}
 	}
+}
+
+// tryInline analyses a call of an inlinable callee in place and returns the states after the call.
+func (m *Machine[S]) tryInline(up *Frame, s S, in ssa.Instruction, depth int) ([]S, bool) {
+	if m.Inline == nil || depth > 3 {
+		return nil, false
+	}
+	c, ok := in.(*ssa.Call)
+	if !ok {
+		return nil, false
+	}
+	cal := Callee(c)
+	if cal == nil || cal.Blocks == nil || !m.Inline(cal, c) {
+		return nil, false
+	}
+	for f := up; f != nil; f = f.Up {
+		if f.Callee == cal {
+			return nil, false // recursion
+		}
+	}
+	if m.memo == nil {
+		m.memo = map[inlineKey[S]][]S{}
+	}
+	key := inlineKey[S]{c, s}
+	if out, ok := m.memo[key]; ok {
+		return out, true
+	}
+	m.memo[key] = nil
+	fr := &Frame{Site: c, Callee: cal, Up: up}
+	// specialise the callee on constant arguments
+	sp := Spec{}
+	for i, a := range c.Call.Args {
+		if k, isC := a.(*ssa.Const); isC && k.Value != nil && i < len(cal.Params) {
+			sp[cal.Params[i]] = k.Value
+		}
+	}
+	var exits []S
+	seen := map[Node[S]]bool{}
+	start := Node[S]{cal.Blocks[0], s}
+	seen[start] = true
+	work := []Node[S]{start}
+	for len(work) > 0 {
+		n := work[len(work)-1]
+		work = work[:len(work)-1]
+		ctx := &Ctx[S]{M: m, Node: n, Frame: fr}
+		states := []S{n.S}
+		returned := false
+		for _, x := range n.B.Instrs {
+			if _, isRet := x.(*ssa.Return); isRet {
+				exits = append(exits, states...)
+				returned = true
+				break
+			}
+			if _, isPanic := x.(*ssa.Panic); isPanic {
+				states = nil
+				break
+			}
+			var next []S
+			for _, st := range states {
+				if out, done := m.tryInline(fr, st, x, depth+1); done {
+					next = append(next, out...)
+					continue
+				}
+				next = append(next, m.Step(ctx, st, x)...)
+			}
+			states = dedup(next)
+			if len(states) == 0 {
+				break
+			}
+		}
+		if returned {
+			continue
+		}
+		for _, st := range states {
+			for _, sb := range sp.Succs(n.B) {
+				ns := st
+				if m.Edge != nil {
+					idx := 0
+					for i, x := range n.B.Succs {
+						if x == sb {
+							idx = i
+						}
+					}
+					var ok bool
+					ns, ok = m.Edge(ctx, st, n.B, idx)
+					if !ok {
+						continue
+					}
+				}
+				nn := Node[S]{sb, ns}
+				if !seen[nn] {
+					seen[nn] = true
+					work = append(work, nn)
+				}
+			}
+		}
+	}
+	exits = dedup(exits)
+	m.memo[key] = exits
+	return exits, true
 }
 
 func dedup[S comparable](in []S) []S {
